@@ -34,6 +34,34 @@ CHECKS = {
              "executed on TLC's pre-states and judged by Observe.tla.",
         technique="TLA+ model checked by TLC + four-step replay judged by Observe.tla",
         ref="5 C06", note=RUN_NOTE),
+    "C10": dict(
+        text="LogStmt.tla gives every statement feature record its required outcome and reference place and TLC checks the "
+             "round-trip/acceptance invariants over the enumerated space; every enumerated record (head x target x key-values x "
+             "message class x trailing args x layout x context x mode) is rendered and executed on the binary, packed, and the "
+             "observed report, insertion offset and token are compared with the specification's.",
+        technique="TLA+ feature-space model enumerated and checked by TLC + one implementation test per enumerated case",
+        ref="5 C10", note=STMT_NOTE),
+    "C11": dict(
+        text="LogStmt.tla marks decoy heads as NotAStatement (invariant OthersUntouched); TLC enumerates decoys interleaved with real "
+             "statements; every case is executed and must be neither reported nor edited, including files ending in a comment "
+             "without newline.",
+        technique="TLA+ feature-space model enumerated by TLC + one implementation test per enumerated case",
+        ref="5 C11", note=STMT_NOTE),
+    "C12": dict(
+        text="RefToken.tla defines the token language declaratively and as an automaton; TLC checks their agreement on every string "
+             "up to the bound and on boundary numbers; every string becomes the start of a message literal executed on the binary.",
+        technique="TLA+ token-language model checked by TLC (declarative vs automaton) + one implementation test per string",
+        ref="5 C12", note=STMT_NOTE),
+    "C13": dict(
+        text="LogStmt.tla structured semantics (placement after target, separator rule, existing/unusable ref keys, single ref) "
+             "checked by TLC over every key-value sequence up to the bound; every case executed and compared.",
+        technique="TLA+ feature-space model checked by TLC + one implementation test per enumerated case",
+        ref="5 C13", note=STMT_NOTE),
+    "C14": dict(
+        text="Directives.tla defines Effect(lines, i) over files as line sequences; TLC checks its consistency invariants and "
+             "enumerates every file up to the bound; every file is executed in both modes and compared.",
+        technique="TLA+ line-sequence model checked by TLC + one implementation test per enumerated file",
+        ref="5 C14", note=STMT_NOTE),
     "C16": dict(
         text="TLC checks the switch/default/error-exit invariants of BreadlogRun; the whole configuration space is replayed, also as "
              "two-run histories, and judged by Observe.tla.",
